@@ -1008,6 +1008,25 @@ def _h_pos_in(eng, d, k):
     return VInt(pos_of(eng.key_term(d, k)))
 
 
+def _module_global_pred(eng, module, name_term):
+    f = z3.Function(f'module_global_{module}', I, B)
+    return f(name_term)
+
+
+def _h_json_content(eng, file_name):
+    """The parsed content of the JSON file of that name (what json.load(open(name)) returns, assumed contract)."""
+    log = z3.Function('file_log', I, I)
+    g = z3.Function('json_content', I, I)
+    return VRef(g(log(file_name.term)), ty.ANY)
+
+
+def _h_is_module_global(eng, name):
+    """`name` is bound at module level in the module of the function under verification (uninterpreted: whatever the
+    module binds, the code must treat it the same way - this is what `name in globals()` tests)."""
+    mod = eng.cur_fi.module if eng.cur_fi is not None else '?'
+    return VBool(_module_global_pred(eng, mod, name.term))
+
+
 def _h_is_fresh(eng, x, old):
     return VBool(x.term >= eng.arr('alloc', old.st))
 
@@ -1166,4 +1185,4 @@ SPEC_HELPERS = dict(pos_in=_h_pos_in, implies=_h_implies, iff=_h_iff, index_of=_
                     is_list=_h_is_list, is_str_value=_h_is_str_value, iterable=_h_iterable, items_of=_h_items_of,
                     rec_has=_h_rec_has, rec_get=_h_rec_get, as_dict=_h_as_dict, file_log=_h_file_log, desc_writes_ok=_h_desc_writes_ok, rng_seed=_h_rng_seed, agg_min=_agg('min'), agg_max=_agg('max'),
                     agg_mean=_agg('mean'), agg_sum=_agg('sum'), agg_variance=_agg('variance'),
-                    is_none=_h_is_none)
+                    is_none=_h_is_none, is_module_global=_h_is_module_global, json_content=_h_json_content)
